@@ -900,30 +900,41 @@ def run_mem_model(env, name, cases):
     return res
 
 
-def run_lang_model(env, name, impl_recs, order, stats):
-    """`langrun.run_model` with a large native stack for the extracted evaluator (its recursion depth follows
-    loop iterations and call depth); a batch that still dies is split, the culprit is left inconclusive."""
-    inp = os.path.join(env.work, name + ".model.in")
-    outp = os.path.join(env.work, name + ".model")
-    with open(inp, "w") as f:
-        for cid in order:
-            r = impl_recs.get(cid)
-            if not r or not r.get("ast") or not r.get("plan"):
-                continue
-            f.write("case %s\n%s\n%s\nend %s\n" % (cid, r["ast"], r["plan"], cid))
-    if os.path.exists(outp):
-        os.remove(outp)
-    cmd = "ulimit -s unlimited 2>/dev/null || ulimit -s 1000000 2>/dev/null; exec %s lang %s %s %s" % (
-        common.NSMODEL, langrun.eps_hex(), inp, outp)
-    rc, out = common.sh(["bash", "-c", cmd], timeout=1800)
-    if rc == 0:
+def run_lang_model(env, name, impl_recs, order, stats, chunk=100):
+    """`langrun.run_model` in chunks, with a large native stack for the extracted evaluator (its recursion
+    depth follows loop iterations and call depth).  A chunk on which the model executable dies or is too
+    slow (the extracted string search is slow on kilobyte strings) is re-run case by case; the cases that
+    still fail are left inconclusive (counted)."""
+    def run(tag, ids, timeout):
+        inp = os.path.join(env.work, "%s.%s.model.in" % (name, tag))
+        outp = os.path.join(env.work, "%s.%s.model" % (name, tag))
+        with open(inp, "w") as f:
+            for cid in ids:
+                r = impl_recs.get(cid)
+                if r and r.get("ast") and r.get("plan"):
+                    f.write("case %s\n%s\n%s\nend %s\n" % (cid, r["ast"], r["plan"], cid))
+        if os.path.exists(outp):
+            os.remove(outp)
+        cmd = "ulimit -s unlimited 2>/dev/null || ulimit -s 1000000 2>/dev/null; exec %s lang %s %s %s" % (
+            common.NSMODEL, langrun.eps_hex(), inp, outp)
+        rc, out = common.sh(["bash", "-c", cmd], timeout=timeout)
+        if rc != 0 or not os.path.exists(outp):
+            return None
         return langrun.parse_records(open(outp).read().splitlines())
-    if len(order) <= 1:
-        stats["model_crashes"] = stats.get("model_crashes", 0) + 1
-        return {}
-    mid = len(order) // 2
-    res = run_lang_model(env, name + "a", impl_recs, order[:mid], stats)
-    res.update(run_lang_model(env, name + "b", impl_recs, order[mid:], stats))
+
+    res = {}
+    for k in range(0, len(order), chunk):
+        ids = order[k:k + chunk]
+        recs = run("c%d" % k, ids, 90)
+        if recs is not None:
+            res.update(recs)
+            continue
+        for cid in ids:
+            one = run("one", [cid], 10)
+            if one is None:
+                stats["model_inconclusive"] = stats.get("model_inconclusive", 0) + 1
+            else:
+                res.update(one)
     return res
 
 
